@@ -38,6 +38,7 @@ type workerOut struct {
 	Samples     []json.RawMessage `json:"samples"`
 	WallS       float64           `json:"wall_s"`
 	RunHashes   map[string]string `json:"run_hashes,omitempty"` // index -> trace+sched hash (determinism self-test)
+	NextIndex   int               `json:"next_index"`
 }
 
 type violationOut struct {
@@ -177,11 +178,15 @@ func TestSim(t *testing.T) {
 	tier := os.Getenv("VERIF_TIER")
 	selftest := os.Getenv("VERIF_SELFTEST") != ""
 	hashes, shashes := map[uint64]bool{}, map[uint64]bool{}
+	seenSig := map[string]bool{}
 	if selftest {
 		out.RunHashes = map[string]string{}
 	}
-	for idx := worker; idx < maxRuns; idx += nworkers {
+	offset := envInt("VERIF_OFFSET", 0)
+	out.NextIndex = maxRuns
+	for idx := offset + worker; idx < maxRuns; idx += nworkers {
 		if time.Since(start) > budget {
+			out.NextIndex = idx - worker // start of the stripe this worker did not get to
 			break
 		}
 		seed := splitmix(base*0x100000001b3 + uint64(idx))
@@ -217,7 +222,16 @@ func TestSim(t *testing.T) {
 		if selftest {
 			out.RunHashes[strconv.Itoa(idx)] = fmt.Sprintf("%016x-%016x-%d", res.TraceHash, res.SchedHash, len(res.Viol))
 		}
-		if len(res.Viol) > 0 && len(out.Violations) < 8 {
+		// keep one record per signature not seen before in this worker (frequent known findings must not crowd
+		// out a new signature)
+		fresh := false
+		for _, v := range res.Viol {
+			if !seenSig[v.Sig] {
+				seenSig[v.Sig] = true
+				fresh = true
+			}
+		}
+		if fresh && len(out.Violations) < 64 {
 			vp := p
 			if res.PlanFaults != nil {
 				cp := *p
